@@ -208,3 +208,23 @@ def check_laws(tab: Table, chk, rule_prefix: str, where: str, key_prefix: str, q
         stats["quadruples"] = n4
         chk.ob(f"{rule_prefix}.O3-strict-weak-order", f"{tab.name}: no 4-cycle outside the known class among {n4} endpoint quadruples", not bad4, where, found=bad4[:2], accepted="none")
     return stats
+
+
+def sibling_nesting_rules(tab: Table) -> Dict[str, list]:
+    """the tie rules that decide which operator owns an event at shared instants (used by C16 as a dependency clause)"""
+    bad = {"PC<PO": [], "PO/PO": [], "PC/PC": []}
+    eps = endpoints(2)
+    for p in [e for e in eps if e[0] == 1]:
+        for q in [e for e in eps if e[0] == 2]:
+            for a, b in ((p, q), (q, p)):
+                la, lb = tab.less(a, b), tab.less(b, a)
+                ka, kb = klass(a), klass(b)
+                if ka == "PC" and kb == "PO" and not (la is True and lb is False):
+                    bad["PC<PO"].append((a, b))
+                if ka == "PO" and kb == "PO":
+                    want = a[2] > b[2] if a[2] != b[2] else a[0] < b[0]
+                    if la is not want:
+                        bad["PO/PO"].append((a, b))
+                if ka == "PC" and kb == "PC" and a[2] != b[2] and la is not (a[2] < b[2]):
+                    bad["PC/PC"].append((a, b))
+    return bad
